@@ -1,11 +1,11 @@
 """C04 - parameter writes and reads are typed correctly and never cross-attributed."""
 import ast
 
-from ..astutil import dotted, method_call
+from ..astutil import aug_form, dotted, effective, method_call
 from ..cfg import cfg_of, fact_key, norm, walk_own
 from ..consteval import fold_in
 from ..mutate import B, M
-from .c03 import toc_lookup_rules
+from .c03 import ext_fetcher_rules, toc_lookup_rules
 from ..symexec import paths_of, paths_of_block
 
 PROP = 'C04'
@@ -21,9 +21,9 @@ EXPLANATION = (
     'stripped only from current-protocol READ replies and values are delivered only for solicited replies or value-changed notifications; '
     'R6 every one-shot reply closure tests channel, command and the 16-bit variable id of its own request before consuming the reply, and '
     'the request carries the same command and id; R7 decode: id at id_index, value after it, one string stored and passed once to each of '
-    'the three fan-outs; R8 requests travel through one FIFO queue with a single consumer.')
+    'the three fan-outs; R8 requests travel through one FIFO queue with a single consumer; R10 the extended-type fetcher follows the same protocol: untimed acquire and published id before each send, an answer is accepted only as MISC_GET_EXTENDED_TYPE reply for the published id, the id is forgotten before the lock is released, one counter step per answer; R11 Caller.call hands the value once to every callable of a snapshot of the list (shared with C07.R2).')
 ASSUMPTIONS = ['queue.Queue is FIFO and thread safe', 'the device echoes the variable id in bytes 1..2 of MISC replies']
-FLOORS = {'R9': 5, 'R1': 3, 'R2': 2, 'R3': 6, 'R4': 9, 'R5': 4, 'R6': 16, 'R7': 7, 'R8': 4}
+FLOORS = {'R9': 5, 'R1': 3, 'R2': 2, 'R3': 6, 'R4': 11, 'R5': 4, 'R6': 16, 'R7': 7, 'R8': 4, 'R10': 14, 'R11': 2}
 
 
 def check(ctx):
@@ -249,6 +249,22 @@ def check(ctx):
     # ---- R9: table look-ups used by this subsystem (shared rule, see C03.R8) -----------------
     toc_lookup_rules(ctx, 'R9')
 
+    # ---- R4 (continued): the pattern is forgotten before the lock is released -----------------
+    cbk = U.method('_new_packet_cb')
+    g = cfg_of(cbk)
+    for n, c in g.find(lambda q: method_call(q, 'release') and norm(q.func.value) == 'self.wait_lock'):
+        clr = [x for x in g.nodes if x.kind == 'stmt' and isinstance(x.ast, ast.Assign) and norm(x.ast.targets[0]) == 'self._lock_pattern' and norm(x.ast.value) == 'None'
+               and g.dominates(x, n)]
+        ctx.inst('R4', cbk, 'pattern-forgotten-before-release@%s' % ('misc' if fact_key('pk.channel == MISC_CHANNEL', True) in g.fact_keys_at(n) else 'rw'), bool(clr),
+                 'the stored pattern is cleared before the lock is released, so a second copy of the same reply cannot release the lock of the next request')
+
+    # ---- R11: the fan-out helper behind the three update-callback lists (shared rule, see C07.R2) --------
+    from .c07 import caller_rules
+    caller_rules(ctx, 'R11')
+
+    # ---- R10: the extended-type fetcher (same single-outstanding-request protocol) ----------------
+    ext_fetcher_rules(ctx, 'R10')
+
 
 def flatten_add(node):
     if isinstance(node, ast.BinOp) and isinstance(node.op, ast.Add):
@@ -258,6 +274,11 @@ def flatten_add(node):
 
 IDC = " and \\\n                    struct.unpack('<H', pk.data[1:3])[0] == element.ident:"
 VARIANTS = [
+    M('R10', PAR, "                self._req_param = -1\n                try:", "                try:", 'fetcher stays tuned to the answered id'),
+    M('R10', PAR, "        if pk.channel == MISC_CHANNEL and pk.data[0] == MISC_GET_EXTENDED_TYPE:\n            var_id", "        if pk.channel == MISC_CHANNEL:\n            var_id", 'any MISC packet answers (F-03a)'),
+    M('R10', PAR, "                self._req_param = struct.unpack('<H', pk.data[1:3])[0]\n                self._cf.send_packet(pk, expected_reply=(tuple(pk.data[:3])))",
+      "                self._cf.send_packet(pk, expected_reply=(tuple(pk.data[:3])))\n                self._req_param = struct.unpack('<H', pk.data[1:3])[0]", 'id published after the send'),
+    M('R4', PAR, "                self.updated_callback(pk)\n                self._lock_pattern = None\n", "                self.updated_callback(pk)\n", 'pattern kept after release'),
     M('R1', PAR, "        elif element.access == ParamTocElement.RO_ACCESS:\n            logger.debug('[%s] is read only, no trying to set value',\n                         complete_name)\n            raise AttributeError('{} is read-only!'.format(complete_name))\n        else:",
       "        else:", 'read-only refusal dropped'),
     M('R2', PAR, "                value_nr = int(value)\n", "                value_nr = int(value) & 0xFFFFFFFF\n", 'value masked'),
